@@ -35,6 +35,81 @@ def _helper_for(idx: PyIndex, fi: FuncInfo, call: ast.Call) -> Optional[FuncInfo
     return None
 
 
+def _terminates(stmts: List[ast.stmt]) -> bool:
+    if not stmts:
+        return False
+    last = stmts[-1]
+    if isinstance(last, (ast.Return, ast.Raise)):
+        return True
+    if isinstance(last, ast.If):
+        return _terminates(last.body) and _terminates(last.orelse)
+    if isinstance(last, ast.With):
+        return _terminates(last.body)
+    return False
+
+
+def _has_return(stmts: List[ast.stmt]) -> bool:
+    return any(isinstance(x, ast.Return) for s_ in stmts for x in ast.walk(s_))
+
+
+def _single_exit(stmts: List[ast.stmt], ret: str, depth: int = 0) -> Optional[List[ast.stmt]]:
+    """The statement list with every `return E` (all in tail position of if-chains: guard clauses, early returns) rewritten as
+    `ret = E`, the statements after an `if` that returns moved into its other branch.  None when a return sits in a loop / try / with."""
+    if depth > 12:
+        return None
+    out: List[ast.stmt] = []
+    for i, st in enumerate(stmts):
+        if isinstance(st, ast.Return):
+            out.append(ast.Assign(targets=[ast.Name(id=ret, ctx=ast.Store())], value=st.value or ast.Constant(value=None)))
+            return out
+        if isinstance(st, ast.If) and (_has_return(st.body) or _has_return(st.orelse)):
+            rest = list(stmts[i + 1:])
+            b = _single_exit(list(st.body) + ([] if _terminates(st.body) else copy.deepcopy(rest)), ret, depth + 1)
+            o = _single_exit(list(st.orelse) + ([] if _terminates(st.orelse) else copy.deepcopy(rest)), ret, depth + 1)
+            if b is None or o is None:
+                return None
+            out.append(ast.If(test=st.test, body=b or [ast.Pass()], orelse=o))
+            return out
+        if isinstance(st, ast.With) and _has_return(st.body) and _terminates(st.body):
+            b = _single_exit(list(st.body), ret, depth + 1)
+            if b is None:
+                return None
+            out.append(ast.With(items=st.items, body=b))
+            return out
+        if isinstance(st, ast.For) and not st.orelse and _has_return(st.body) and not any(isinstance(x, ast.Break) for b in st.body for x in ast.walk(b)):
+            # search loop: `for ..: if P: return E` + rest   ->   `for ..: if P: ret = E; break` + `else: rest`
+            lb = _loop_returns(list(st.body), ret)
+            rest = _single_exit(list(stmts[i + 1:]), ret, depth + 1)
+            if lb is None or rest is None:
+                return None
+            out.append(ast.For(target=st.target, iter=st.iter, body=lb, orelse=rest))
+            return out
+        if _has_return([st]):
+            return None
+        out.append(st)
+    return out
+
+
+def _loop_returns(stmts: List[ast.stmt], ret: str) -> Optional[List[ast.stmt]]:
+    out: List[ast.stmt] = []
+    for st in stmts:
+        if isinstance(st, ast.Return):
+            out.append(ast.Assign(targets=[ast.Name(id=ret, ctx=ast.Store())], value=st.value or ast.Constant(value=None)))
+            out.append(ast.Break())
+            return out
+        if isinstance(st, ast.If) and _has_return([st]):
+            b = _loop_returns(list(st.body), ret)
+            o = _loop_returns(list(st.orelse), ret)
+            if b is None or o is None:
+                return None
+            out.append(ast.If(test=st.test, body=b or [ast.Pass()], orelse=o))
+            continue
+        if _has_return([st]):
+            return None
+        out.append(st)
+    return out
+
+
 def _inlinable(h: FuncInfo, as_statement: bool) -> bool:
     n = h.node
     if not isinstance(n, ast.FunctionDef) or n.args.vararg or n.args.kwarg or len(n.body) > 40:
@@ -46,10 +121,58 @@ def _inlinable(h: FuncInfo, as_statement: bool) -> bool:
             return False
     rets = [x for x in ast.walk(n) if isinstance(x, ast.Return)]
     if not rets:
-        return as_statement or True
+        return True
     if len(rets) == 1 and n.body and n.body[-1] is rets[0]:
         return True
-    return False
+    return _single_exit(copy.deepcopy(n.body), '_r') is not None
+
+
+def _expr_form(idx: PyIndex, fi: FuncInfo, call: ast.Call, h: FuncInfo) -> Optional[ast.AST]:
+    """The value of `call` as ONE expression, for helpers that are a chain of single-assignment locals followed by `return E`
+    (usable where no statement can be hoisted: comprehension elements, lambdas, conditional operands)."""
+    n = h.node
+    if not isinstance(n, ast.FunctionDef) or n.args.vararg or n.args.kwarg:
+        return None
+    body = list(n.body)
+    if body and isinstance(body[0], ast.Expr) and isinstance(body[0].value, ast.Constant) and isinstance(body[0].value.value, str):
+        body = body[1:]
+    params = [a.arg for a in n.args.args]
+    skip_self = h.kind in ('method', 'classmethod') and isinstance(call.func, ast.Attribute)
+    bound: Dict[str, ast.AST] = {}
+    pos = params[1:] if skip_self else params
+    if skip_self:
+        bound[params[0]] = call.func.value
+    if len(call.args) > len(pos) or any(isinstance(a, ast.Starred) for a in call.args) or any(k.arg is None for k in call.keywords):
+        return None
+    for p_, a in zip(pos, call.args):
+        bound[p_] = a
+    for kw in call.keywords:
+        bound[kw.arg] = kw.value
+    defaults = dict(zip(params[len(params) - len(n.args.defaults):], n.args.defaults))
+    for p_ in params:
+        if p_ not in bound:
+            if p_ in defaults:
+                bound[p_] = defaults[p_]
+            else:
+                return None
+    # arguments are substituted textually: only side-effect-free, cheap argument expressions
+    if not all(isinstance(v, (ast.Name, ast.Constant)) or (isinstance(v, ast.Attribute) and _is_path(v)) for v in bound.values()):
+        return None
+    env: Dict[str, ast.AST] = dict(bound)
+    for st in body:
+        if isinstance(st, ast.Assign) and len(st.targets) == 1 and isinstance(st.targets[0], ast.Name) and st.targets[0].id not in env:
+            env[st.targets[0].id] = _SubstExpr(env).visit(copy.deepcopy(st.value))
+        elif isinstance(st, ast.Return) and st.value is not None and st is body[-1]:
+            e = _SubstExpr(env).visit(copy.deepcopy(st.value))
+            if h.module != fi.module and h.module in idx.modules and fi.module in idx.modules:
+                hs, cs = idx.modules[h.module].symbols, idx.modules[fi.module].symbols
+                for x in ast.walk(e):
+                    if isinstance(x, ast.Name) and x.id in hs and x.id not in cs:
+                        cs[x.id] = hs[x.id]
+            return e
+        else:
+            return None
+    return None
 
 
 def _is_path(e: ast.AST) -> bool:
@@ -119,6 +242,22 @@ def _expand(idx: PyIndex, fi: FuncInfo, call: ast.Call, h: FuncInfo, at: ast.AST
             continue
         st = ast.Assign(targets=[ast.Name(id=ren[p], ctx=ast.Store())], value=copy.deepcopy(v))
         binds.append(st)
+    # module-level names the helper body uses must mean the same thing at the call site: make them visible in the caller's module
+    if h.module != fi.module and h.module in idx.modules and fi.module in idx.modules:
+        hs, cs = idx.modules[h.module].symbols, idx.modules[fi.module].symbols
+        for x in ast.walk(hn):
+            if isinstance(x, ast.Name) and isinstance(x.ctx, ast.Load) and x.id not in locals_ and x.id in hs:
+                rh = idx.resolve(h.module, x.id)
+                if x.id not in cs:
+                    cs[x.id] = hs[x.id]
+                else:
+                    rc = idx.resolve(fi.module, x.id)
+                    same = rh is not None and rc is not None and (rh.kind, rh.module, rh.name, rh.target_mod, rh.target_name) == \
+                        (rc.kind, rc.module, rc.name, rc.target_mod, rc.target_name)
+                    if not same:
+                        alias = f'_m{abs(hash(h.module)) % 9973}_{x.id}'
+                        cs.setdefault(alias, hs[x.id])
+                        x.id = alias
     body = [_Rename(ren).visit(s) for s in hn.body]
     if direct:
         body = [_SubstExpr(direct).visit(s) for s in body]
@@ -126,9 +265,17 @@ def _expand(idx: PyIndex, fi: FuncInfo, call: ast.Call, h: FuncInfo, at: ast.AST
     if body and isinstance(body[0], ast.Expr) and isinstance(body[0].value, ast.Constant) and isinstance(body[0].value.value, str):
         body = body[1:]
     ret = None
-    if body and isinstance(body[-1], ast.Return):
+    n_rets = sum(isinstance(x, ast.Return) for s_ in body for x in ast.walk(s_))
+    if n_rets == 1 and body and isinstance(body[-1], ast.Return):
         ret = body[-1].value
         body = body[:-1]
+    elif n_rets:
+        rv = f'_h{k}_ret'
+        body2 = _single_exit(body, rv)
+        if body2 is None:
+            return None
+        body = body2
+        ret = ast.Name(id=rv, ctx=ast.Load())
     out = binds + body
     for s in out:
         for x in ast.walk(s):
@@ -136,8 +283,9 @@ def _expand(idx: PyIndex, fi: FuncInfo, call: ast.Call, h: FuncInfo, at: ast.AST
     return out, ret
 
 
-def inline_function(idx: PyIndex, fi: FuncInfo, depth: int = 2) -> ast.FunctionDef:
-    """Deep copy of fi.node with helper calls inlined (`depth` rounds)."""
+def inline_function(idx: PyIndex, fi: FuncInfo, depth: int = 2, keep=None) -> ast.FunctionDef:
+    """Deep copy of fi.node with helper calls inlined (`depth` rounds); helpers whose name is in `keep` stay calls."""
+    keep = set(keep or ())
     fn = copy.deepcopy(fi.node)
     if not isinstance(fn, ast.FunctionDef):
         return fn
@@ -164,7 +312,7 @@ def inline_function(idx: PyIndex, fi: FuncInfo, depth: int = 2) -> ast.FunctionD
                     call, kind = st.value, 'return'
                 if call is not None:
                     h = _helper_for(idx, fi, call)
-                    if h is not None and h.id != fi.id and _inlinable(h, kind == 'stmt'):
+                    if h is not None and h.id != fi.id and h.qualname.split('.')[-1] not in keep and _inlinable(h, kind == 'stmt'):
                         ex = _expand(idx, fi, call, h, st)
                         if ex is not None:
                             stmts, ret = ex
@@ -180,6 +328,60 @@ def inline_function(idx: PyIndex, fi: FuncInfo, depth: int = 2) -> ast.FunctionD
                                     out.append(ast.copy_location(ast.Return(value=ret), st))
                                 changed = True
                                 continue
+                # helper calls nested in the statement's own expression (not under a lambda / comprehension / conditional operand)
+                if isinstance(st, (ast.Assign, ast.AugAssign, ast.Expr, ast.Return, ast.AnnAssign)) and getattr(st, 'value', None) is not None:
+                    pre: List[ast.stmt] = []
+
+                    class _ExprOnly(ast.NodeTransformer):
+                        """Inside comprehensions: helper calls that reduce to one expression are replaced by it."""
+                        def visit_Lambda(self, node):
+                            return node
+
+                        def visit_Call(self, node):
+                            self.generic_visit(node)
+                            h3 = _helper_for(idx, fi, node)
+                            if h3 is not None and h3.id != fi.id and h3.qualname.split('.')[-1] not in keep:
+                                e3 = _expr_form(idx, fi, node, h3)
+                                if e3 is not None:
+                                    nonlocal changed
+                                    changed = True
+                                    for x in ast.walk(e3):
+                                        ast.copy_location(x, node)
+                                    return e3
+                            return node
+
+                    class _Nested(ast.NodeTransformer):
+                        def visit_Lambda(self, node):
+                            return node
+
+                        def visit_IfExp(self, node):
+                            node.test = self.visit(node.test)
+                            return node
+
+                        def visit_BoolOp(self, node):
+                            node.values[0] = self.visit(node.values[0])
+                            return node
+
+                        def _comp(self, node):
+                            node.generators[0].iter = self.visit(node.generators[0].iter)
+                            return _ExprOnly().visit(node)
+                        visit_ListComp = visit_SetComp = visit_GeneratorExp = visit_DictComp = _comp
+
+                        def visit_Call(self, node):
+                            self.generic_visit(node)
+                            if node is call:
+                                return node
+                            h2 = _helper_for(idx, fi, node)
+                            if h2 is not None and h2.id != fi.id and h2.qualname.split('.')[-1] not in keep and _inlinable(h2, False):
+                                ex2 = _expand(idx, fi, node, h2, st)
+                                if ex2 is not None and ex2[1] is not None:
+                                    nonlocal changed
+                                    pre.extend(ex2[0])
+                                    changed = True
+                                    return ast.copy_location(copy.deepcopy(ex2[1]), node)
+                            return node
+                    st.value = _Nested().visit(st.value)
+                    out.extend(pre)
                 out.append(st)
             return out
         fn.body = do_body(fn.body)
@@ -193,6 +395,6 @@ def inline_function(idx: PyIndex, fi: FuncInfo, depth: int = 2) -> ast.FunctionD
     return fn
 
 
-def inlined_info(idx: PyIndex, fi: FuncInfo, depth: int = 2) -> FuncInfo:
+def inlined_info(idx: PyIndex, fi: FuncInfo, depth: int = 2, keep=None) -> FuncInfo:
     """A FuncInfo whose node is the inlined copy (same identity otherwise)."""
-    return FuncInfo(fi.module, fi.qualname, inline_function(idx, fi, depth), fi.cls, fi.kind)
+    return FuncInfo(fi.module, fi.qualname, inline_function(idx, fi, depth, keep), fi.cls, fi.kind)
